@@ -441,6 +441,29 @@ def bitfields(rep, fn):
     (rep.proved if pr["EVLAST"] < (1 << ev_bits) else rep.violated)("R-CFGX", fn, "event-field-width", "the event field can hold every event kind")
 
 
+def epoll_masks(rep, u, vals):
+    """epoll(7): EPOLLHUP and EPOLLERR are always reported, EPOLLRDHUP (the peer closed or half-closed its end) only when it
+    was requested.  The loop turns hang-up bits into TP_F_EOF, so the interest mask of a read registration must request every
+    optional bit the EOF test looks at, and the EOF test must cover both hang-up kinds (Linux ABI values)."""
+    fn = tp.need(u, "tpt_loop")
+    EPOLLIN, EPOLLOUT, EPOLLERR, EPOLLHUP, EPOLLRDHUP = 0x1, 0x4, 0x8, 0x10, 0x2000
+    g = u.globals.get("tp_event_to_ep_map")
+    if g is None:
+        raise driver.AnalysisBroken("anchor tp_event_to_ep_map vanished")
+    m = [int(x) for x in core.global_value(u, g)]
+    rd, wr = m[vals["TP_EV_READ"]], m[vals["TP_EV_WRITE"]]
+    eof = vals["EPOLL_HUP"]
+    always = EPOLLHUP | EPOLLERR
+    desc = "a read registration requests every hang-up bit that is reported only on request and that the loop maps to TP_F_EOF"
+    miss = eof & ~always & ~rd
+    (rep.violated if miss else rep.proved)("R-TBL", fn, "eof-bits-requested", desc,
+                                           ("bit(s) 0x%x (EPOLLRDHUP) are tested for TP_F_EOF but never requested by the TP_EV_READ entry 0x%x: "
+                                            "a half-closed peer is reported without TP_F_EOF" % (miss, rd)) if miss else "EOF test 0x%x, read interest 0x%x" % (eof, rd))
+    desc = "the EOF test covers hang-up and peer-closed (EPOLLHUP | EPOLLRDHUP); read interest has EPOLLIN, write interest EPOLLOUT and not EPOLLIN"
+    ok = (eof & (EPOLLHUP | EPOLLRDHUP)) == (EPOLLHUP | EPOLLRDHUP) and rd & EPOLLIN and not rd & EPOLLOUT and wr & EPOLLOUT and not wr & EPOLLIN
+    (rep.proved if ok else rep.violated)("R-TBL", fn, "epoll-interest", desc, "EOF test 0x%x, read 0x%x, write 0x%x" % (eof, rd, wr))
+
+
 def record_widths(rep, u):
     """the fields of the event record travel through helper parameters of the same width: a parameter named after a
     tp_event_t field has that field's integer type width, and no call narrows such a value implicitly"""
@@ -506,6 +529,7 @@ def run(rep, tier):
     nf = fd_pairing(rep, fp)
     rep.floor("descriptor creation sites", nf, 2)
     bitfields(rep, fp)
+    epoll_masks(rep, u, vals)
     rep.floor("event-record parameters", record_widths(rep, u), 8)
     return driver.finish(
         rep, "other",
@@ -514,5 +538,5 @@ def run(rep, tier):
         "after tpt_ev_validate returned 0; validator exhaustive over event kinds, masks equal the defined flags, foreign bits and "
         "ONESHOT+DISPATCH refused; programmed value definitely assigned; DISABLED gate, one-shot forget, dispatch mark, EOF/ERROR "
         "flag stores dominate the callback; interval zero iff one-shot/dispatch; ABSTIME/clock agreement; descriptors closed on "
-        "failing paths; tpdata bit fields disjoint. NOT decided: firing behaviour over registration histories.",
+        "failing paths; tpdata bit fields disjoint; the read interest mask requests every on-request hang-up bit the loop maps to TP_F_EOF. NOT decided: firing behaviour over registration histories.",
         ["epoll/timerfd semantics as documented", "constants evaluated by the compiler with the real build flags (probe unit)"], TRUSTED)
